@@ -1,7 +1,8 @@
 """C05 — single-threaded ring: bounded byte FIFO with all-or-nothing calls and atomic transactions.
 
 case formats (see ocaml/drv_c05.ml / harness/drv_c05.c):
-  H <size> <op> ...     one history (ops w:<hex> r:<n> p:<n> s:<n> z b a:<hex> c)
+  H <size> <op> ...     one history (ops w:<hex> r:<n> p:<n> s:<n> z b a:<hex> c; W:<n> A:<n> = write / amend of
+                        n > capacity bytes, answered on the model side through Properties_C05_huge.v)
   K <size>              capacity of a new ring only (large sizes: ties next_power_of_two)
 """
 import itertools
@@ -14,7 +15,7 @@ import vlib
 PROPS = "Properties_C05"
 # leaf functions / constants of ring.c are re-translated from the C source on every run (tools/translate_leaf.py ->
 # coq/gen/Leaf.v, Constants.v) and re-proved equal to the model's (coq/Properties_leaf_ring.v)
-EXTRA_PROPS = ["Properties_leaf_ring"]
+EXTRA_PROPS = ["Properties_leaf_ring", "Properties_C05_huge"]
 
 
 def REGEN(ctx):
@@ -31,7 +32,7 @@ RULE = ("one case = one history (ring size + list of calls) or one capacity quer
         "non-empty read/peek occur; distinct = distinct case strings")
 ASSUMPTIONS = [
     "single thread: the atomic loads/stores of ring.c are modelled as plain accesses (the two-thread case is C04)",
-    "both allocations of zix_ring_new succeed (allocation failure is C07); zix_ring_mlock is not modelled",
+    "both allocations of zix_ring_new succeed (allocation failure is C07); zix_ring_mlock is the identity on the modelled state (its status, which depends on RLIMIT_MEMLOCK, is not compared)",
     "the caller passes buffers of at least the requested size and request sizes are uint32_t values",
     "transaction misuse (amend/commit without begin_write since the last write/commit/reset) is outside the "
     "property; the model still follows the code there and the correspondence (L2) still compares it",
@@ -112,12 +113,22 @@ def pick_size(sim, r, kind):
     return max(0, min(v, sim.cap + 2))
 
 
+def huge_request(sim, r):
+    """a request size above the whole buffer, aimed at 32-bit wrap-around of fill + size and head + size"""
+    k = r.choice([2**32 - 1, 2**32 - 2, 2**32 - sim.used, 2**32 - sim.used - 1, 2**32 - sim.used + 1, 2**32 - sim.w,
+                  2**32 - sim.w - 1, 2**32 - sim.n, 2**32 - sim.n + sim.used, 2**32 - sim.cap + sim.used, 2**31,
+                  2**31 + sim.used, sim.n, sim.n + sim.used, 2 * sim.n])
+    return max(sim.n, min(k, 2**32 - 1))
+
+
 def gen_history(r, size, length, hostile=False):
     sim = Sim(size)
     ops = []
     while len(ops) < length:
         x = r.random()
-        if x < 0.30:
+        if x < 0.30 and hostile and r.random() < 0.15:
+            ops.append("W:%d" % huge_request(sim, r))      # refused: nothing changes
+        elif x < 0.30:
             k = pick_size(sim, r, "w")
             ops.append("w:" + hexs(sim.data(k)))
             if k <= sim.cap - sim.used:
@@ -136,6 +147,8 @@ def gen_history(r, size, length, hostile=False):
             if kind != "p" and k <= sim.used:
                 sim.used -= k
                 sim.r = (sim.r + k) % sim.n
+        elif x < 0.64:
+            ops.append("m")                 # zix_ring_mlock at any point of a history: the contents stay
         elif x < 0.66:
             ops.append("z")
             sim.used = sim.r = sim.w = 0
@@ -157,6 +170,10 @@ def gen_history(r, size, length, hostile=False):
                     k = left
                 elif y < 0.85:
                     k = left + 1
+                elif hostile and y < 0.92:
+                    ops.append("A:%d" % huge_request(sim, r))
+                    failed = True
+                    continue
                 else:
                     k = max(0, min(r.choice(interesting_sizes(sim, r)), sim.cap + 2))
                 ops.append("a:" + hexs(sim.data(k)))
